@@ -201,6 +201,6 @@ def run(ctx: Ctx, rep: Report, tier: str):
     _alias(rep, ["C04.tmp"], "C04.R15", "a delete stays deleted when a stale 'exists' event follows it: update_entry turns TRASHED + exists into LIKELY_TRASHED (identity tests on the "
            "enum member and on True), every other event writes its existence flag through (C14.W11)", 1,
            lambda: (rep.rule("C04.tmp", "alias", 0), event_application_writes_through(ctx, rep, "C04.tmp")), keep=lambda i: i.key == "update_entry|exists")
-    from rules.decisions import decision_table
-    rep.rule("C04.R16", "decision table of delete handling and revival: every action site of delete_synced, the non-empty-folder path, the vanished-object paths and check_revivify is reached under exactly the recorded path condition", 48)
-    section(rep, lambda: decision_table(ctx, rep, "C04.R16", ['SyncManager.delete_synced', 'SyncManager._handle_dir_delete_not_empty', 'SyncManager.handle_cloud_file_not_found_error', 'SyncManager.handle_changed_is_missing', 'SyncManager.check_revivify']))
+    from rules.decisions import decision_table, table_sites
+    rep.rule("C04.R16", "decision table of delete handling and revival: every action site of delete_synced, the non-empty-folder path, the vanished-object paths and check_revivify is reached under exactly the recorded path condition and on the recorded side", table_sites("C04"))
+    section(rep, lambda: decision_table(ctx, rep, "C04.R16", "C04"))
